@@ -315,7 +315,7 @@ def kind_of(c):
 
 def run(ctx, replay=None):
     C.run_gate(ctx)
-    ncases = 220 if ctx.quick else 2500
+    ncases = 220 if ctx.quick else 1800
     cases = [replay["case"]] if replay else [gen_case(ctx.rng) for _ in range(ncases)]
     ctx.coverage["rule"] = ("seeded random non-negative count matrices (1-7 rows, 1-5 columns; small integers, floats over 6 decades, counts up to 1e6; random, rank-1, "
                             "empty row+column, single non-empty cell), each in 10 encodings (canonical CSR / CSC, shuffled COO, COO with duplicate coordinates, CSC and CSR with "
